@@ -133,6 +133,36 @@ pub fn roundtrip(e: &Expr) -> Result<(), String> {
             group(&e2)
         ));
     }
+    // the structured form shown to users (DefReply.def_expr): its parts, joined by spaces,
+    // must spell the same expression
+    let reply = catch(|| rink_core::output::ExprReply::from(e)).map_err(|p| format!("ExprReply::from panicked: {}", p))?;
+    if let Ok(j) = serde_json::to_value(&reply) {
+        fn join(parts: &serde_json::Value, out: &mut Vec<String>) {
+            for p in parts.as_array().cloned().unwrap_or_default() {
+                match p["type"].as_str() {
+                    Some("literal") => out.push(p["text"].as_str().unwrap_or("").to_string()),
+                    Some("unit") => out.push(p["name"].as_str().unwrap_or("").to_string()),
+                    Some("property") => {
+                        out.push(format!("{} of", p["property"].as_str().unwrap_or("")));
+                        join(&p["subject"], out);
+                    }
+                    _ => out.push("<error>".to_string()),
+                }
+            }
+        }
+        let mut toks = vec![];
+        join(&j["exprs"], &mut toks);
+        let text = toks.join(" ");
+        let (e3, eof3) = catch(|| parse_full(&text)).map_err(|p| format!("re-parsing the structured form `{}` panicked: {}", text, p))?;
+        if !eof3 || &e3 != e {
+            return Err(format!(
+                "structured form (ExprReply parts joined by spaces) `{}` re-parses to a different tree (`{}`; fully grouped: {})",
+                text,
+                e3,
+                group(&e3)
+            ));
+        }
+    }
     // same through the exchange format
     let entry = DefEntry::new_unit("x", None, None, e.clone());
     let js = serde_json::to_string(&entry).map_err(|x| format!("serialise: {}", x))?;
